@@ -256,6 +256,25 @@ Example C19_ex_tls :
   /\ tls_connect Ex.name_ok Ex.hs Rustls [104; 32; 58; 56] 5 = ([], TErrInvalidInput).
 Proof. vm_compute. repeat split. Qed.
 
+(* `http::Uri` as connect address (feature `uri`, uri.rs; http 0.2 and http 1): the hostname is the URI's host ("" if it has none);
+   the port is the URI's explicit port if it has one, otherwise exactly the well-known port of its scheme in the table below
+   (http ws 80, https wss 443, amqp 5672, amqps 5671, mqtt 1883, mqtts 8883, ftp 21, ftps 990, redis 6379, mysql 3306,
+   postgres 5432), otherwise none — and ConnectInfo::new(uri).port() is that port, or 0.  The URI parser itself is the `http`
+   crate's (oracle: scheme_str, host, port_u16). *)
+Theorem C19_uri_port_explicit : forall p sc, uri_port (Some p) sc = Some p.
+Proof. exact uri_port_explicit. Qed.
+Theorem C19_uri_port_default : forall sc p, uri_port None (Some sc) = Some p <-> In (sc, p) scheme_ports.
+Proof. exact uri_port_default. Qed.
+Theorem C19_uri_port_none : uri_port None None = None.
+Proof. exact uri_port_none. Qed.
+Theorem C19_uri_ci_port : forall e sc, uri_ci_port e sc = match uri_port e sc with Some p => p | None => 0 end.
+Proof. exact uri_ci_port_spec. Qed.
+(* non-vacuity: "wss" gives 443, "gopher" nothing, an explicit 8080 wins over "https" *)
+Example C19_uri_example :
+  uri_port None (Some [119; 115; 115]) = Some 443 /\ uri_port None (Some [103; 111; 112; 104; 101; 114]) = None /\
+  uri_port (Some 8080) (Some [104; 116; 116; 112; 115]) = Some 8080 /\ uri_ci_port None None = 0.
+Proof. vm_compute. repeat split. Qed.
+
 Print Assumptions C19_no_reresolve.
 Print Assumptions C19_ip_literal.
 Print Assumptions C19_lookup.
@@ -274,3 +293,7 @@ Print Assumptions C19_u16.
 Print Assumptions C19_tls_name.
 Print Assumptions C19_tls_pipeline_name.
 Print Assumptions C19_tls_pipeline_ok.
+Print Assumptions C19_uri_port_explicit.
+Print Assumptions C19_uri_port_default.
+Print Assumptions C19_uri_port_none.
+Print Assumptions C19_uri_ci_port.
